@@ -262,6 +262,30 @@ DEV_WORKERS = int(os.environ.get("VF_DEV_WORKERS", "0"))      # development on a
 DEV_PAR = int(os.environ.get("VF_DEV_PAR", "0"))
 
 
+def selftest(ctx, lines):
+    """the binding is live: a record with one corrupted observed field must be rejected"""
+    bad = None
+    for ln in lines:
+        r = json.loads(ln)
+        if r["call"] == "expunge" and r["post"]["exit"] == "continue" and r["pre"]["m"]:
+            r["post"]["regs"][7][0] ^= 1          # the value expunge returned in omega7
+            bad = json.dumps(r)
+            break
+    if bad is None:
+        raise vf.Infra("selftest: no record to corrupt")
+    sub = vf.Ctx(ctx.pid, ctx.tier, ctx.seed)
+    save = vf.VERIF
+    vf.VERIF = sub.tmp                            # the corrupted line's "replay" stays in scratch space
+    try:
+        n = vf.validate_trace(sub, "HostRefine_Trace", [bad], timeout=900, par=1)
+    finally:
+        vf.VERIF = save
+        sub.cleanup()
+    if n == 0:
+        raise vf.Infra("selftest: corrupted record accepted")
+    vf.log("  selftest: corrupted record rejected as expected")
+
+
 def execute_and_judge(ctx, defs, cases):
     quick = ctx.quick
     binp = vf.build_driver(ctx, "refine", "./PVM", FILES)
@@ -297,6 +321,8 @@ def execute_and_judge(ctx, defs, cases):
             raise vf.Infra("no %s call was recorded (vacuous run)" % need)
     vf.validate_trace(ctx, "HostRefine_Trace", lines, shard=200 if quick else 700, par=DEV_PAR or 14,
                       timeout=3000, heap="3g", what="inner-machine host call deviates from the Gray Paper")
+    if getattr(ctx, "selftest", False) or (not ctx.quick and not ctx.replay):
+        selftest(ctx, lines)
     # make every replay file self-contained: keep the whole case (script + initial outer memory) with each rejected record
     dmap = {d["def"]: d["outer"] for d in defs}
     for _what, path in ctx.violations:
